@@ -32,6 +32,7 @@ Proof.
          try (rewrite (Hna _ _ _ _ eq_refl) by (intros; discriminate))).
   - split; [split; [auto|discriminate]|constructor].
   - split; [split; [auto|discriminate]|constructor].
+  - split; [split; [auto|discriminate]|constructor].
   - split; [split; [|discriminate]|constructor]. exists h1. split; [auto|]. exists h'. split; [auto|auto].
   - split; [split; [|discriminate]|constructor]. exists h'. split; auto.
   - split; [split; [|discriminate]|constructor]. exists h'. split; auto.
@@ -80,7 +81,7 @@ Proof.
   intros cfg t p k Hin Hs Hna Hnb. destruct (in_split_ctx _ _ Hin) as (pre & post & ->).
   destruct t as [h st a]. simpl in Hs. subst st.
   destruct p; try (exfalso; eapply Hna; reflexivity); try congruence;
-    eexists; apply step_at; first [apply s_skip | apply s_call | apply s_seq | apply s_alt_l | apply s_loop_exit
+    eexists; apply step_at; first [apply s_skip | apply s_call | apply s_guarded | apply s_seq | apply s_alt_l | apply s_loop_exit
                                   | apply s_go | apply s_rel].
 Qed.
 
